@@ -343,7 +343,7 @@ class World:
                 tv_names |= tvars(a)
             for a in lv["base_args"]:
                 tv_names |= tvars(a)
-        tv_names |= {"T", "X"}
+        tv_names |= {"T", "X", "Y", "Z"}
         dflts = {}
         for lv in spec["levels"]:
             dflts.update(lv["defaults"])
@@ -656,7 +656,7 @@ def gen_spec(rng, shape=None):
             # attrs field converters (tagging / identity): the hook of the SUBSTITUTED field type must still run before them
             for fn, _ in own:
                 if rng.random() < 0.2:
-                    lv["conv"][fn] = rng.choice(["tag", "id"])
+                    lv["conv"][fn] = rng.choice(["tag", "id", "id"])
         return lv
 
     occ = []
@@ -761,8 +761,11 @@ def gen_spec(rng, shape=None):
 
 # ---- payloads ----------------------------------------------------------------------------------------
 
-def payload(rng, a, W, depth=0, self_fields=None, none_ok=True):
+def payload(rng, a, W, depth=0, self_fields=None, none_ok=True, minimal=False):
+    """a payload for annotation `a`.  `none_ok=False`: never None at an Optional (the payload reaches every position);
+    `minimal`: None at every Optional, every collection empty (the payload reaches as few positions as possible)"""
     k = a[0]
+    rec = lambda x, d: payload(rng, x, W, d, self_fields, none_ok, minimal)  # noqa: E731
     if k == "lf":
         n = a[1]
         if n == "int":
@@ -779,37 +782,67 @@ def payload(rng, a, W, depth=0, self_fields=None, none_ok=True):
             return {"v": rng.choice([1, "2", 3])}
         raise ValueError(a)
     if k == "ann":
-        return payload(rng, a[1], W, depth, self_fields, none_ok)
+        return rec(a[1], depth)
     if k == "self":
         if depth >= 2 or self_fields is None:
             return None
-        return {fn: payload(rng, t, W, depth + 1, self_fields, none_ok) for fn, t in self_fields}
+        return {fn: rec(t, depth + 1) for fn, t in self_fields}
     if k == "pu":
         ms = [m for m in a[1] if m != LF("None")]
-        if none_ok and rng.random() < 0.3 and len(ms) < len(a[1]):
+        if len(ms) < len(a[1]) and (minimal or (none_ok and rng.random() < 0.3)):
             return None
-        return payload(rng, ms[0], W, depth, self_fields, none_ok)
+        return rec(ms[0], depth)
     c, args = a[1], a[2]
-    if c in ("list", "List", "A"):
-        return [payload(rng, args[0], W, depth + 1, self_fields, none_ok) for _ in range(rng.randint(0, 2) if depth else rng.randint(1, 2))]
+    if c in ALIASES:
+        return rec(expand_aliases(a), depth)
+    if c in ("list", "List", "set", "frozenset"):
+        if minimal:
+            return []
+        xs = [rec(args[0], depth + 1) for _ in range(rng.randint(0, 2) if depth and none_ok else rng.randint(1, 2))]
+        if c in ("set", "frozenset"):
+            # element payloads of a set must be hashable: otherwise both sides fail alike and nothing is compared
+            xs = [x for x in xs if isinstance(x, (int, str, float, bool))] or xs
+        return xs
     if c == "dict":
-        return {rng.choice(["k", "l", "m"]): payload(rng, args[1], W, depth + 1, self_fields, none_ok) for _ in range(rng.randint(1, 2))}
+        if minimal:
+            return {}
+        out = {}
+        for _ in range(rng.randint(1, 2)):
+            key = rec(args[0], depth + 1) if args[0][0] == "lf" and args[0][1] in SCALARS and args[0][1] != "str" \
+                else rng.choice(["k", "l", "m"])
+            out[key] = rec(args[1], depth + 1)
+        return out
     if c == "tuple":
         if len(args) == 2 and args[1] == LF("..."):
-            return [payload(rng, args[0], W, depth + 1, self_fields, none_ok) for _ in range(rng.randint(0, 2))]
-        return [payload(rng, x, W, depth + 1, self_fields, none_ok) for x in args]
+            return [] if minimal else [rec(args[0], depth + 1) for _ in range(rng.randint(0 if none_ok else 1, 2))]
+        return [rec(x, depth + 1) for x in args]
     if c == "Union":
         ms = [m for m in args if m != LF("None")]
-        if len(ms) < len(args) and (depth >= 2 and has_self(a) or (none_ok and rng.random() < 0.3)):
+        if len(ms) < len(args) and (minimal or depth >= 2 and has_self(a) or (none_ok and rng.random() < 0.3)):
             return None
         if len(ms) != 1:
             raise Unpayloadable(a)
-        return payload(rng, ms[0], W, depth, self_fields, none_ok)
+        return rec(ms[0], depth)
     if c == "In":
-        return {"v": payload(rng, args[0], W, depth + 1, self_fields, none_ok)}
+        return {"v": rec(args[0], depth + 1)}
     if c == "NotRequired":
-        return payload(rng, args[0], W, depth, self_fields, none_ok)
+        return rec(args[0], depth)
     raise Unpayloadable(a)
+
+
+def is_notrequired(a):
+    return a[0] == "app" and a[1] == "NotRequired"
+
+
+def class_payload(rng, fields, W, self_fields, mode):
+    """a payload for a whole class.  mode: 'random' | 'full' (reaches every position: no None, every NotRequired key
+    present) | 'minimal' (None, empty collections, NotRequired keys absent)"""
+    out = {}
+    for fn, t in fields:
+        if is_notrequired(t) and (mode == "minimal" or (mode == "random" and rng.random() < 0.3)):
+            continue
+        out[fn] = payload(rng, t, W, 0, self_fields, none_ok=(mode != "full"), minimal=(mode == "minimal"))
+    return out
 
 
 class Unpayloadable(Exception):
@@ -985,8 +1018,61 @@ def _f29(case):
             and not shape_base_binding(case["spec"]))
 
 
+F50_SIG = "c17_generic_alias_unstructured_by_unsubstituted_value"
+
+
+def mentions_alias(a):
+    return any(x[0] == "app" and x[1] in ALIASES for x in walk(a))
+
+
+@framework.finding(F50_SIG)
+def _f50(case):
+    """F50: the UNSTRUCTURE hook of a parametrised PEP 695 generic alias is the hook of the alias' unsubstituted value
+    (`lambda t: self.get_unstructure_hook(get_type_alias_base(t))`): the arguments are ignored.  Recognised only on the
+    unstructure side, and only when every field whose unstructured form differs from the copy's is annotated with a type
+    that mentions a generic alias."""
+    if case.get("op") == "alias-unstructure":
+        return True
+    if case.get("op") != "unstructure" or not case.get("spec") or not case.get("diff_fields"):
+        return False
+    anns = {fn: a for lv in case["spec"]["levels"] for fn, a in lv["own"]}
+    return all(fn in anns and mentions_alias(anns[fn]) for fn in case["diff_fields"])
+
+
+F51_SIG = "c17_bare_subclass_of_passthrough_base_refused_only_when_reached"
+
+
+def shape_passthrough(spec):
+    """the head class hands one of its own parameters on to its parametrised base (`class G(B[T], Generic[T])`)"""
+    lv = spec["levels"]
+    return len(lv) >= 2 and any(a[0] == "tv" and a[1] in lv[0]["params"] for a in lv[0]["base_args"])
+
+
+@framework.finding(F51_SIG)
+def _f51(case):
+    """F51: for the BARE class `G` of `class G(B[T], Generic[T])`, `generate_mapping` records `T -> ~T` (the loop over
+    `__orig_bases__` does not skip TypeVar arguments), so "Missing type for generic argument" never fires and whether
+    structuring is refused depends on whether the payload reaches `T`.  Recognised by the shape of the input only:
+    refusal probe of the bare class whose head hands a parameter on to its base."""
+    return (case.get("op") == "refusal" and case.get("unbound") == "bare" and bool(case.get("spec"))
+            and shape_passthrough(case["spec"]))
+
+
 def finding_shape(spec):
     return shape_pep604(spec) or shape_base_binding(spec) or shape_self_generic(spec)
+
+
+def diff_fields(oG, oM):
+    """names of the fields whose unstructured forms differ (None when that cannot be told)"""
+    try:
+        uG, uM = oG[2], oM[2]
+        if uG[0] != "ok" or uM[0] != "ok" or uG[1][0] != "d" or uM[1][0] != "d":
+            return None
+        dG = {json.dumps(k): json.dumps(v) for k, v in uG[1][2]}
+        dM = {json.dumps(k): json.dumps(v) for k, v in uM[1][2]}
+        return sorted(json.loads(k)[1].strip("'") for k in set(dG) | set(dM) if dG.get(k) != dM.get(k))
+    except (IndexError, TypeError, KeyError):
+        return None
 
 
 # =====================================================================================================
@@ -1145,7 +1231,12 @@ def eval_world(chk, drv, spec, n_payloads, corr_fail, label=None):
             elif rs[0] != "ok":
                 corr_fail.append(("RESOLVE", gcase, "generator raised " + rs[1], rmg))
             else:
-                want_g = [json.dumps(W.canon(W.real(strip_nr(a)))) for _, a in pairs_of(parse_sx(rmg)[1])]
+                mg = pairs_of(parse_sx(rmg)[1])
+                if td and not det:
+                    # the fast TypedDict template asks for the handlers of the required keys first, then for the others
+                    nr = {fn for lv in spec["levels"] for fn, a in lv["own"] if is_notrequired(a)}
+                    mg = [x for x in mg if x[0] not in nr] + [x for x in mg if x[0] in nr]
+                want_g = [json.dumps(W.canon(W.real(strip_nr(a)))) for _, a in mg]
                 got_g = [json.dumps(W.canon(t)) for t in rs[1]]
                 if want_g != got_g:
                     corr_fail.append(("RESOLVE", gcase, json.dumps(got_g), rmg))
@@ -1220,16 +1311,17 @@ def eval_world(chk, drv, spec, n_payloads, corr_fail, label=None):
         pls = []
         for _ in range(n_payloads):
             try:
-                pl = {fn: payload(rng, t, W, 0, self_fields) for fn, t in mono}
+                pl = class_payload(rng, mono, W, self_fields, "random")
             except Unpayloadable:
                 chk.note("unpayloadable")
                 continue
-            if kind == "typeddict" and rng.random() < 0.2 and any(t[0] == "app" and t[1] == "NotRequired" for _, t in mono):
-                pass
             pls.append(("valid", pl))
             for _ in range(2):
                 q, op = mutate(rng, pl)
                 pls.append(("mut:" + op, q))
+        # a tagging field converter leaves values in the instance that do not have the declared type of their field:
+        # unstructuring such an instance says nothing (and cannot be localised); those worlds are compared on structure only
+        with_un = not any(v == "tag" for lv in spec["levels"] for v in lv.get("conv", {}).values())
         for det in (True, False):
             fresh_copy = Converter(detailed_validation=det)
             for pk, pl in pls:
@@ -1237,13 +1329,13 @@ def eval_world(chk, drv, spec, n_payloads, corr_fail, label=None):
                 for cn, conv in (("shared", shared[det]), ("fresh", Converter(detailed_validation=det))):
                     rG = scan.attempt(lambda: conv.structure(pl, tgt), "structure(%r, %s)" % (pl, tgt))
                     oG = obs(rG, W)
-                    if rG[0] == "ok":
+                    if rG[0] == "ok" and with_un:
                         uG = attempt(lambda: conv.unstructure(rG[1], tgt))
                         oG.append(["ok", canon_val(uG[1], W)] if uG[0] == "ok" else ["err"])
                     outs[cn] = oG
                 rM = scan.attempt(lambda: fresh_copy.structure(pl, Copy), "structure(%r, <copy of %s>)" % (pl, tgt))
                 oM = obs(rM, W)
-                if rM[0] == "ok":
+                if rM[0] == "ok" and with_un:
                     uM = attempt(lambda: fresh_copy.unstructure(rM[1], Copy))
                     oM.append(["ok", canon_val(uM[1], W)] if uM[0] == "ok" else ["err"])
                 chk.note("payload:" + pk.split(":")[0], "copy:" + oM[0])
@@ -1251,10 +1343,13 @@ def eval_world(chk, drv, spec, n_payloads, corr_fail, label=None):
                 for cn in ("shared", "fresh"):
                     if outs[cn] != oM:
                         which = "structure" if outs[cn][:2] != oM[:2] else "unstructure"
+                        df = diff_fields(outs[cn], oM) if which == "unstructure" else None
                         fails.append((
-                            "C17 oracle: %s of %s on a %s converter (detailed=%s) differs from the monomorphised copy: "
-                            "payload=%r generic=%s copy=%s" % (which, tgt, cn, det, pl, json.dumps(outs[cn])[:300], json.dumps(oM)[:300]),
-                            dict(case0, op=which, payload=repr(pl), detailed=det, converter=cn, in_scope=in_scope)))
+                            "C17 oracle: %s of %s on a %s converter (detailed=%s) differs from the monomorphised copy%s: "
+                            "payload=%r generic=%s copy=%s" % (which, tgt, cn, det, " in fields %s" % df if df else "", pl,
+                                                               json.dumps(outs[cn][2:] if df else outs[cn])[:400],
+                                                               json.dumps(oM[2:] if df else oM)[:400]),
+                            dict(case0, op=which, payload=repr(pl), detailed=det, converter=cn, in_scope=in_scope, diff_fields=df)))
                         break
                 if ai == 0 and pk == "valid" and (det, "first") not in first_results:
                     first_results[(det, "first")] = (pl, tgt, outs["shared"])
@@ -1265,7 +1360,7 @@ def eval_world(chk, drv, spec, n_payloads, corr_fail, label=None):
                     pl, tgt1, before = first_results[(det, "first")]
                     rG = scan.attempt(lambda: shared[det].structure(pl, tgt1))
                     oG = obs(rG, W)
-                    if rG[0] == "ok":
+                    if rG[0] == "ok" and with_un:
                         uG = attempt(lambda: shared[det].unstructure(rG[1], tgt1))
                         oG.append(["ok", canon_val(uG[1], W)] if uG[0] == "ok" else ["err"])
                     chk.note("interference-recheck")
@@ -1273,18 +1368,17 @@ def eval_world(chk, drv, spec, n_payloads, corr_fail, label=None):
                         fails.append(("C17 oracle: result for %s changed after another parametrisation was used on the same converter"
                                       % tgt1, dict(case0, op="interference", payload=repr(pl), detailed=det, in_scope=in_scope)))
 
-        # ---------- oracle P: an unbound parameter without default is refused
+        # ---------- oracle P: an unbound parameter without default is refused -- whatever the payload
         lv0 = spec["levels"][0]
         if args0 is not None and lv0["params"] and not lv0["defaults"]:
+            # a field with an attrs converter is exempt: when no hook can be found for its type the documented rule
+            # (C20) hands the raw value to the converter; the refusal is owed to the fields without converter
             used = set()
-            for _, a in lv0["own"]:
-                used |= tvars(a)
+            for fn, a in lv0["own"]:
+                if fn not in lv0.get("conv", {}):
+                    used |= tvars(a)
             for unb in ("bare", "tvar"):
                 if not (set(lv0["params"]) & used):
-                    continue
-                try:
-                    pl = {fn: payload(rng, t, W, 0, self_fields, none_ok=False) for fn, t in mono}
-                except Unpayloadable:
                     continue
                 if unb == "bare":
                     t_unb = W.cls
@@ -1295,16 +1389,32 @@ def eval_world(chk, drv, spec, n_payloads, corr_fail, label=None):
                     mixed = [TV(p) if i == keep else a for i, (p, a) in enumerate(zip(lv0["params"], args0))]
                     t_unb = W.target(mixed)
                     tgu = "(alias " + " ".join(ann_sx(a) for a in mixed) + ")"
+                mref = drv.ask("%s %s %s" % ("REFUSESTD" if td else "REFUSES", chain, tgu))
+                # the generator alone (both templates): the model refuses iff generating the hook raises
                 for det in (True, False):
-                    r = scan.attempt(lambda: Converter(detailed_validation=det).structure(pl, t_unb))
-                    chk.note("unbound:" + unb, "unbound-result:" + r[0])
-                    chk.evaluations += 1
-                    mref = drv.ask("REFUSES %s %s" % (chain, tgu))
-                    if r[0] == "ok":
-                        fails.append(("C17 oracle: structuring %s with an unbound type parameter was not refused: payload=%r result=%r"
-                                      % (t_unb, pl, r[1]), dict(case0, op="refusal", payload=repr(pl), detailed=det, in_scope=in_scope)))
-                    elif mref != "1" and in_scope:
-                        corr_fail.append(("RESOLVE", dict(case0, op="resolve"), "refused", "model does not refuse " + tgu))
+                    gop = ("STRUCTGENTD" if det else "STRUCTGENTDFAST") if td else "STRUCTGEN"
+                    rmg = drv.ask("%s %s %s" % (gop, chain, tgu))
+                    rs = attempt(lambda: structure_types_real(t_unb, td, det))
+                    chk.note("corr:RESOLVE-generator-unbound")
+                    if (rmg == "refused") != (rs[0] != "ok") and in_scope:
+                        corr_fail.append(("RESOLVE", dict(case0, op="resolve", detailed=det, unbound=tgu),
+                                          "generator " + ("raised " + str(rs[1]) if rs[0] != "ok" else "did not refuse"), rmg))
+                # payloads that reach the parameter, payloads that do not (None / empty collections / absent keys), random ones
+                for mode in ("full", "minimal", "random"):
+                    try:
+                        pl = class_payload(rng, mono, W, self_fields, mode)
+                    except Unpayloadable:
+                        continue
+                    for det in (True, False):
+                        r = scan.attempt(lambda: Converter(detailed_validation=det).structure(pl, t_unb))
+                        chk.note("unbound:" + unb, "unbound-payload:" + mode, "unbound-result:" + r[0])
+                        chk.evaluations += 1
+                        if r[0] == "ok":
+                            fails.append(("C17 oracle: structuring %s with an unbound type parameter was not refused (%s payload): payload=%r result=%r"
+                                          % (t_unb, mode, pl, r[1]),
+                                          dict(case0, op="refusal", unbound=unb, payload=repr(pl), payload_mode=mode, detailed=det, in_scope=in_scope)))
+                        elif mref != "1" and in_scope:
+                            corr_fail.append(("RESOLVE", dict(case0, op="resolve"), "refused", "model does not refuse " + tgu))
     if scan.varied is not None:
         chk.note("depth-dependent-world")
         fails.append(("C17 oracle (determinism): the outcome of %s depends on the call-stack depth: %s" % scan.varied,
@@ -1338,7 +1448,8 @@ def gen_ann(rng, depth, vars_):
     if r < 0.82:
         return APP("In", gen_ann(rng, depth - 1, vars_))
     if r < 0.88:
-        return APP("A", gen_ann(rng, depth - 1, vars_))
+        al = rng.choice(sorted(ALIASES))
+        return APP(al, *[gen_ann(rng, depth - 1, vars_) for _ in ALIASES[al][0]])
     a = gen_ann(rng, depth - 1, vars_)
     if not (a[0] == "app" and a[1] in ("list", "dict", "tuple")) and not (a[0] == "lf" and a[1] in SCALARS):
         # only classes and builtin generic aliases make a types.UnionType with `|`; `T | None`, `Self | None`,
@@ -1403,30 +1514,93 @@ def dcw_round(chk, drv, n, corr_fail):
                 corr_fail.append(("DCW", dict(case, op="dcw-vs-spec"), got, sp))
 
 
+def alias_value(rng, ps):
+    """the value of a generic alias with declared parameters `ps`: a random subset of them (at least one), each used
+    once or several times, in an order unrelated to the declaration order -> (shape name, annotation)"""
+    used = rng.sample(ps, rng.randint(1, len(ps)))
+    rng.shuffle(used)
+    if len(used) == 1:
+        return occurrence(rng, used[0], pep604_bad=rng.random() < 0.15)
+
+    def leaf(v):
+        r = rng.random()
+        if r < 0.6:
+            return TV(v)
+        return rng.choice([APP("list", TV(v)), OPT(TV(v)), ANN(TV(v), "m"), APP("In", TV(v)), APP("tuple", TV(v), LF("..."))])
+
+    a, b = used[0], used[1]
+    if len(used) == 3:
+        c = used[2]
+        return rng.choice([
+            ("tuple3", APP("tuple", leaf(a), leaf(b), leaf(c))),
+            ("dict-tuple", APP("dict", TV(a), APP("tuple", leaf(b), leaf(c)))),
+            ("list-tuple3-repeat", APP("list", APP("tuple", leaf(c), leaf(a), leaf(b), TV(c)))),
+        ])
+    return rng.choice([
+        ("dict2", APP("dict", TV(a), leaf(b))),
+        ("tuple2", APP("tuple", leaf(a), leaf(b))),
+        ("dict-list", APP("dict", TV(a), APP("list", leaf(b)))),
+        ("tuple-repeat", APP("tuple", leaf(b), leaf(a), TV(b))),
+        ("optional-dict", OPT(APP("dict", TV(a), leaf(b)))),
+        ("list-tuple", APP("list", APP("tuple", leaf(a), leaf(b)))),
+        ("annotated-dict", ANN(APP("dict", TV(a), leaf(b)), "m")),
+        ("dict-str-tuple", APP("dict", LF("str"), APP("tuple", leaf(a), leaf(b)))),
+        ("nested-generic-tuple", APP("In", APP("tuple", leaf(a), leaf(b)))),
+        ("table", APP("dict", TV(a), APP("list", APP("tuple", leaf(b), OPT(TV(a)))))),
+    ])
+
+
 def alias_round(chk, drv, n, corr_fail, fails):
-    """PEP 695 generic aliases used directly: structure(payload, Alias[arg]) == structure(payload, substituted value)"""
+    """PEP 695 generic aliases used directly: structure(payload, Alias[args]) == structure(payload, value with every
+    parameter replaced by the argument given for THAT parameter).  1-3 parameters, declared in any order relative to
+    their first appearance in the value, used several times or not at all."""
     rng = chk.rng
     for _ in range(n):
         W = World(DCW_SPEC)
-        name, value = occurrence(rng, "X", pep604_bad=rng.random() < 0.15)
-        if any(x[0] == "app" and x[1] == "A" for x in walk(value)):
+        ps = rng.sample(["X", "Y", "Z"], rng.choice([1, 1, 2, 2, 2, 3]))
+        name, value = alias_value(rng, ps)
+        if any(x[0] == "app" and x[1] in ALIASES for x in walk(value)):
             continue
-        arg = gen_closed_arg(rng)
+        # pairwise distinct arguments (a permutation of equal arguments is invisible)
+        pool = [LF(x) for x in SCALARS]
+        rng.shuffle(pool)
+        args = [pool[i] if rng.random() < 0.7 else gen_closed_arg(rng) for i in range(len(ps))]
         aname = "AL" + W.sfx
         try:
-            exec(compile("type %s[X] = %s" % (aname, src(value, W.names)), "<c17 alias>", "exec", flags=0, dont_inherit=True), W.ns)
+            exec(compile("type %s[%s] = %s" % (aname, ", ".join(ps), src(value, W.names)), "<c17 alias>", "exec",
+                         flags=0, dont_inherit=True), W.ns)
+            AL = W.ns[aname]
+            value = W.canon(AL.__value__)
+            tgt = AL[tuple(W.real(a) for a in args)]
         except Exception:  # noqa: BLE001
+            chk.note("alias-rejected-by-python")
             continue
-        AL = W.ns[aname]
-        value = W.canon(AL.__value__)
-        tgt = AL[W.real(arg)]
-        mono = subst(value, {"X": arg})
-        spec = {"shape": "alias", "levels": [{"name": "AL", "params": ["X"], "own": [("value", value)], "base_args": [],
+        mono = subst(value, dict(zip(ps, args)))
+        decl = "type AL[%s] = %s" % (", ".join(ps), src(value, W.names))
+        spec = {"shape": "alias", "levels": [{"name": "AL", "params": ps, "own": [("value", value)], "base_args": [],
                                               "defaults": {}, "generic_base": True}], "kind": "alias"}
         bad = shape_pep604(spec)
-        case = {"spec": spec, "op": "alias", "arg": arg}
-        rm = drv.ask("ALIAS (\"X\") %s (%s)" % (ann_sx(value), ann_sx(arg)))
-        chk.note("corr:ALIAS", "alias-occ:" + name)
+        case = {"spec": spec, "op": "alias", "args": args}
+        rm = drv.ask("ALIAS (%s) %s (%s)" % (" ".join(esc(p) for p in ps), ann_sx(value), " ".join(ann_sx(a) for a in args)))
+        first_seen = []
+        for x in walk(value):
+            if x[0] == "tv" and x[1] not in first_seen:
+                first_seen.append(x[1])
+        chk.note("corr:ALIAS", "alias-occ:" + name, "alias-params:%d" % len(ps),
+                 "alias-order:" + ("declared" if first_seen == ps else "unused-parameter" if len(first_seen) < len(ps) else "permuted"))
+        # correspondence: the type the factory hands on (bound as a default of the hook it returns)
+        hk = attempt(lambda: Converter().get_structure_hook(tgt))
+        dflt = getattr(hk[1], "__defaults__", None) if hk[0] == "ok" else None
+        if rm == "err":
+            if not (hk[0] == "err" and hk[1] == "AttributeError"):
+                corr_fail.append(("ALIAS", case, repr(hk)[:100], rm))
+        elif hk[0] == "ok" and dflt and len(dflt) == 1:
+            want = json.dumps(W.canon(W.real(ann_of(parse_sx(rm)[1]))))
+            got = json.dumps(W.canon(dflt[0]))
+            if want != got and not bad:
+                corr_fail.append(("ALIAS", case, got, rm))
+        else:
+            chk.note("alias-observable-unavailable" if hk[0] == "ok" else "alias-hook-not-created")
         try:
             pl = payload(rng, mono, W, 0, None)
         except Unpayloadable:
@@ -1435,14 +1609,22 @@ def alias_round(chk, drv, n, corr_fail, fails):
             c = Converter(detailed_validation=det)
             rG = attempt(lambda: c.structure(pl, tgt))
             rM = attempt(lambda: Converter(detailed_validation=det).structure(pl, W.real(mono)))
-            chk.count("alias" + ann_sx(value) + ann_sx(arg), sample={"alias": "type AL[X] = " + src(value, W.names), "arg": str(arg)})
+            chk.count("alias" + ann_sx(value) + " ".join(ps) + " ".join(ann_sx(a) for a in args),
+                      sample={"alias": decl, "args": [src(a, W.names) for a in args]})
+            chk.evaluations += 1
             if obs(rG, W) != obs(rM, W):
-                fails.append(("C17 oracle: structuring the generic alias %s[%s] differs from its substituted value: payload=%r alias=%s value=%s"
-                              % ("type AL[X] = " + src(value, W.names), src(arg, W.names), pl, obs(rG, W), obs(rM, W)),
+                fails.append(("C17 oracle: structuring the generic alias %s as AL[%s] differs from its substituted value %s: payload=%r alias=%s value=%s"
+                              % (decl, ", ".join(src(a, W.names) for a in args), src(mono, W.names), pl, obs(rG, W), obs(rM, W)),
                               dict(case, payload=repr(pl), in_scope=not bad)))
-            # model: err <-> the factory raises AttributeError while building the hook
-            if (rm == "err") != (rG[0] == "err" and rG[1] == "AttributeError"):
-                corr_fail.append(("ALIAS", case, repr(rG)[:100], rm))
+            elif rM[0] == "ok" and det:
+                # the unstructure side (recorded finding F50: the alias' arguments are ignored there)
+                uG = attempt(lambda: c.unstructure(rM[1], tgt))
+                uM = attempt(lambda: Converter().unstructure(rM[1], W.real(mono)))
+                chk.note("alias-unstructure:" + ("same" if obs(uG, W) == obs(uM, W) else "differs"))
+                if obs(uG, W) != obs(uM, W):
+                    fails.append(("C17 oracle: unstructuring as the generic alias %s, AL[%s], differs from its substituted value %s: value=%r alias=%s substituted=%s"
+                                  % (decl, ", ".join(src(a, W.names) for a in args), src(mono, W.names), rM[1], obs(uG, W), obs(uM, W)),
+                                  dict(case, op="alias-unstructure", payload=repr(pl))))
 
 
 # =====================================================================================================
@@ -1482,6 +1664,12 @@ WITNESSES = [
      {"shape": "F29-self", "kind": "attrs", "style": "generic", "target": "alias", "occ": ["optional-self"],
       "levels": [_lv("SG", ["T"], [("a", TV("T")), ("nxt", OPT(SELF))])],
       "argsets": [[LF("int")], [LF("str")]]}),
+    ("F51", "C17_unbound_passthrough_witness",
+     # `class PG(PB[T], Generic[T]): b: Optional[list[T]]` over `class PB(Generic[T]): a: Optional[T]`: the bare PG
+     # accepts {'a': None, 'b': None} and refuses {'a': 1, 'b': None}
+     {"shape": "inherit-pass", "kind": "attrs", "style": "generic", "target": "alias", "occ": ["F51-passthrough"],
+      "levels": [_lv("PG", ["T"], [("b", OPT(APP("list", TV("T"))))], [TV("T")]), _lv("PB", ["T"], [("a", OPT(TV("T")))])],
+      "argsets": [[LF("int")], [LF("str")]]}),
 ]
 
 
@@ -1504,6 +1692,23 @@ def depth_probe(chk):
     return []
 
 
+def alias_unstructure_probe(chk):
+    """F50 (Lean witness `C17_alias_unstructure_witness`), replayed: `type R[X, Y] = dict[Y, X]`;
+    `unstructure({'m': Leaf(1)}, R[Leaf, str])` must equal `unstructure({'m': Leaf(1)}, dict[str, Leaf])`"""
+    W = World(DCW_SPEC)
+    leaf = W.ns[W.names["Leaf"]](1)
+    t_alias = W.real(APP("R", LF("Leaf"), LF("str")))
+    t_value = W.real(expand_aliases(APP("R", LF("Leaf"), LF("str"))))
+    uG = attempt(lambda: Converter().unstructure({"m": leaf}, t_alias))
+    uM = attempt(lambda: Converter().unstructure({"m": leaf}, t_value))
+    chk.evaluations += 1
+    if obs(uG, W) != obs(uM, W):
+        return [("C17 oracle: unstructuring {'m': Leaf(1)} as the generic alias R[Leaf, str] (type R[X, Y] = dict[Y, X]) gives %s, "
+                 "as dict[str, Leaf] it gives %s" % (obs(uG, W), obs(uM, W)),
+                 {"op": "alias-unstructure", "label": "C17_alias_unstructure_witness"})]
+    return []
+
+
 def report(chk, fails):
     """P failures: known finding by input shape, or VIOLATION"""
     n_known = 0
@@ -1519,6 +1724,14 @@ def report(chk, fails):
 
 def run(chk: framework.Check):
     rng = chk.rng
+    if os.environ.get("VERIF_C17_F50") and not any(f.get("signature") == F50_SIG for f in chk.known):
+        chk.known.append({"id": "F50", "property": "C17", "kind": "finding", "signature": F50_SIG,
+                          "what": "unstructuring as a parametrised PEP 695 generic alias ignores the alias' arguments "
+                                  "(entry assumed via VERIF_C17_F50)"})
+    if os.environ.get("VERIF_C17_F51") and not any(f.get("signature") == F51_SIG for f in chk.known):
+        chk.known.append({"id": "F51", "property": "C17", "kind": "finding", "signature": F51_SIG,
+                          "what": "bare subclass of a pass-through parametrised base: refused only when the payload reaches "
+                                  "the parameter (entry assumed via VERIF_C17_F51)"})
     drv = lean.Driver()
     quick = chk.tier == "quick"
     corr_fail = []
@@ -1535,10 +1748,16 @@ def run(chk: framework.Check):
 
     all_fails += depth_probe(chk)
     chk.note("probe:F40-depth")
+    f50 = alias_unstructure_probe(chk)
+    chk.note("witness:F50")
+    if not f50 and any(f.get("signature") == F50_SIG for f in chk.known):
+        print("STALE-FINDING: property=C17 F50 witness C17_alias_unstructure_witness no longer reproduces on the implementation")
+        chk.note("stale-finding:F50")
+    all_fails += f50
 
     # 2. deep_copy_with / generic aliases, directly
     dcw_round(chk, drv, 400 if quick else 4000, corr_fail)
-    alias_round(chk, drv, 40 if quick else 400, corr_fail, all_fails)
+    alias_round(chk, drv, 120 if quick else 1200, corr_fail, all_fails)
 
     # 3. random generic worlds
     n_worlds = 150 if quick else 1500
